@@ -133,7 +133,7 @@ def split3(r):
     if r is None:
         return None
     p = r.split(SEP)
-    if len(p) != 3:
+    if len(p) not in (3, 4):
         return None
     return p
 
@@ -310,9 +310,10 @@ def oracle(case, impl):
     if parts is None:
         STATS["judged:no(invalid/odd)"] += 1
         return None
-    ra, rb, rc = [parse_result(p) for p in parts]
+    ra, rb, rc = [parse_result(p) for p in parts[:3]]
+    rd = parse_result(parts[3]) if len(parts) > 3 else None      # the prefix alone, no escape at all
     STATS["A:" + (ra["kind"] if ra["kind"] != "err" else ra["ekind"])] += 1
-    if any(r["kind"] not in ("ok", "err") for r in (ra, rb, rc)):
+    if any(r["kind"] not in ("ok", "err") for r in (ra, rb, rc) + ((rd,) if rd else ())):
         STATS["judged:no(panic/abort)"] += 1
         return None                               # panics belong to C01
     cmd, pre, tail, alt = decode(case)
@@ -408,15 +409,19 @@ def oracle(case, impl):
             if cmdline_entries(ea, largs) != cmdline_entries(eb, largs):
                 return "options given before `--` differ between the tail and an innocuous tail: %r vs %r" % (
                     cmdline_entries(ea, largs), cmdline_entries(eb, largs))
-    if rc["kind"] == "ok":
-        lc = levels(rc["m"])
+    for rx, what in ((rc, "with and without the tail"), (rd, "with the tail and on the prefix alone (no `--`)")):
+        if rx is None or rx["kind"] != "ok":
+            continue
+        lc = levels(rx["m"])
+        if [n for _, n in lc if n is not None] != chain:
+            continue
         skip = set()        # (global arguments are propagated between levels: one skip set for the chain)
         for _, _, largs in lv:
             skip |= override_related(largs)
         for (ea, _), (ec, _), (_, _, largs) in zip(la, lc, lv):
             if cmdline_entries(ea, largs, skip) != cmdline_entries(ec, largs, skip):
-                return "options given before `--` differ with and without the tail: %r vs %r" % (
-                    cmdline_entries(ea, largs, skip), cmdline_entries(ec, largs, skip))
+                return "options given before `--` differ %s: %r vs %r" % (
+                    what, cmdline_entries(ea, largs, skip), cmdline_entries(ec, largs, skip))
     return None
 
 
